@@ -19,7 +19,8 @@
 (*   WStart   thread begins, process_result.startTestRun() reaches put     *)
 (*   WPut     one queue.put: startTestRun, the status events of its tests  *)
 (*            (or of the ErrorHolder "broken-runner-'route'" when run()    *)
-(*            raises), stopTestRun in the `finally`; then the thread ends  *)
+(*            raises), stopTestRun in the `finally`                        *)
+(*   WExit    the thread ends                                              *)
 (***************************************************************************)
 EXTENDS Naturals, Sequences, FiniteSets, TLC, Json, SequencesExt, IOUtils
 
@@ -36,13 +37,13 @@ Broken == 9
 Id(w, i) == 100 * w + 10 * i
 
 VARIABLES
-    script,      \* frozen: per worker [tests: Seq("ok"|"er"|"raw"), raises: BOOLEAN]
+    script,      \* frozen: per worker [tests: Seq("ok"|"er"|"raw"), raises: no | exc | base]
     makeFault,   \* frozen: NoFault or k: make_tests raises after yielding k sub-suites
     intrAt,      \* frozen: NoFault or j: the j-th (0-based) queue.get() raises KeyboardInterrupt
     cfault,      \* frozen: NoFault or n: the caller's result raises at its n-th (0-based) status() call
     mpc,         \* main: [pc, w]  pc \in begin spawn get join returned raised
     cause, propagated,
-    wpc,         \* per worker: new ready put done
+    wpc,         \* per worker: new ready put exit done
     wk,          \* per worker: index of the next message to put
     queue,       \* sequence of messages [kind, w, id, st, sub]
     threads,     \* the dict, as a sequence of workers
@@ -72,7 +73,7 @@ RECURSIVE TestEvents(_, _)
 TestEvents(w, i) == IF i > Len(script[w].tests) THEN <<>>
                     ELSE EventsOf(w, i, script[w].tests[i]) \o TestEvents(w, i + 1)
 Msgs(w) == << Msg("startTestRun", w, 0, None, FALSE) >> \o TestEvents(w, 1)
-           \o (IF script[w].raises THEN BrokenEvents(w) ELSE <<>>)
+           \o (IF script[w].raises = "exc" THEN BrokenEvents(w) ELSE <<>>)
            \o << Msg("stopTestRun", w, 0, None, FALSE) >>
 
 CEntry(m) == [w |-> m.w, id |-> m.id, st |-> m.st, route |-> IF m.sub THEN "own/sub" ELSE "own", ts |-> TRUE]
@@ -175,19 +176,27 @@ WPut(w) ==
        \* after startTestRun has been put, test.run(process_result) is entered
        /\ runBy' = IF wk[w] = 1 THEN [runBy EXCEPT ![w] = Append(@, w)] ELSE runBy
        /\ wk' = [wk EXCEPT ![w] = @ + 1]
-       /\ wpc' = [wpc EXCEPT ![w] = IF wk[w] = Len(Msgs(w)) THEN "done" ELSE "put"]
+       /\ wpc' = [wpc EXCEPT ![w] = IF wk[w] = Len(Msgs(w)) THEN "exit" ELSE "put"]
        /\ UNCHANGED <<script, makeFault, intrAt, cfault, mpc, cause, propagated, threads, clog, told, abortAlive,
                       ngets, nstatus>>
        /\ Log(w, "put", m, NoCEntry)
 
+WExit(w) ==
+    /\ wpc[w] = "exit"
+    /\ wpc' = [wpc EXCEPT ![w] = "done"]
+    /\ UNCHANGED <<script, makeFault, intrAt, cfault, mpc, cause, propagated, wk, queue, threads, clog, emitted,
+                   runBy, told, abortAlive, ngets, nstatus>>
+    /\ Log(w, "exit", NoMsg, NoCEntry)
+
 DoWStart == \E w \in Workers : WStart(w)
 DoWPut   == \E w \in Workers : WPut(w)
+DoWExit  == \E w \in Workers : WExit(w)
 MainStep == MBegin \/ MSpawn \/ MGet \/ MJoin
-WorkerStep(w) == WStart(w) \/ WPut(w)
+WorkerStep(w) == WStart(w) \/ WPut(w) \/ WExit(w)
 
 Terminal == mpc.pc \in {"returned", "raised"} /\ Alive(wpc) = {}
 Done == Terminal /\ UNCHANGED vars
-Next == MBegin \/ MSpawn \/ MGet \/ MJoin \/ DoWStart \/ DoWPut \/ Done
+Next == MBegin \/ MSpawn \/ MGet \/ MJoin \/ DoWStart \/ DoWPut \/ DoWExit \/ Done
 Fairness == WF_vars(MainStep) /\ \A w \in 1..4 : WF_vars(w \in Workers /\ WorkerStep(w))
 
 -----------------------------------------------------------------------------
@@ -220,7 +229,7 @@ StreamFields ==
 
 \* a sub-suite whose run() raises is reported as a failed "broken-runner-'route'" test
 BrokenReported ==
-    \A w \in Workers : (script[w].raises /\ mpc.pc = "returned") =>
+    \A w \in Workers : (script[w].raises = "exc" /\ mpc.pc = "returned") =>
         \E j \in DOMAIN clog : clog[j].w = w /\ clog[j].id = Id(w, Broken) /\ clog[j].st = "fail"
 
 AbortTellsAll ==
